@@ -172,6 +172,19 @@ CLAIMS = {
        "validated on every case, not proved); command lines below the tty line limit; program output must not contain the complete "
        "prompt (NoEarly).",
   ref="DESIGN.md section 4 C01"),
+ "C19": dict(
+  text="Theorems C19Q.hushWords_hushQuote / hushWords_escape (the hazard-rejecting hush tokenizer recovers exactly the argument list "
+       "from _hush_quote'd arguments: no variable expansion, separator, comment or quote-state escape, for every printable-ASCII / "
+       "non-ASCII string), C19.exec_exact / exec_crc_exact / exec0_raises_iff / test_iff / exec_fragmentation / env_roundtrip / "
+       "spec_holds: over a U-Boot console model (raw echo, hush tokenizer, command table, `echo $?`, setenv/printenv) exec returns "
+       "exactly (status, text(output)) for EVERY fragmentation, slice count and chunk size — including the crc32 / '=> ' prompt "
+       "override — and env(v,x); env(v) = x; table facts by `decide` over the regenerated black-list. Correspondence: the REAL "
+       "UBootShell on a Python transcription of the same console (virtual clock), the tokenizer re-checked against Hush.hushWords on "
+       "every line; Spec.C19 judges the implementation's return values, dispatch log and written bytes.",
+  note="partial: there is no U-Boot/hush binary here — the hush tokenizer and the console are models written from cli_hush.c "
+       "semantics (largest unvalidated item of the trusted base); arguments over printable ASCII and non-ASCII bytes; "
+       "no-early-prompt hypothesis at stream level in the theorem, at delivered-piece level in the Spec.",
+  ref="DESIGN.md section 4 C19"),
 }
 
 REASON_TODO = "check not built yet (work in progress; will be claimed once its Lean model, theorems and correspondence harness exist)"
